@@ -111,11 +111,15 @@ var windows = []window{
 
 type outcome struct {
 	Fail bool
+	Kind string // how it fails: "" = the issuer returns an error; "no-id" = it returns a properly signed chain whose leaf carries no SPIFFE ID; "bad-id" = a leaf with a non-SPIFFE URI; "empty" = no error and no certificate
 	Win  window
 }
 
 func (o outcome) String() string {
 	if o.Fail {
+		if o.Kind != "" {
+			return "fail:" + o.Kind
+		}
 		return "fail"
 	}
 	return "ok:" + o.Win.Name
@@ -170,10 +174,13 @@ func (is *issuer) request(ctx context.Context, csrDER []byte) ([]*x509.Certifica
 	is.mu.Lock()
 	r.pub = pub
 	is.mu.Unlock()
-	if oc.Fail {
+	if oc.Fail && (oc.Kind == "" || oc.Kind == "empty") {
 		is.mu.Lock()
 		r.end = time.Now()
 		is.mu.Unlock()
+		if oc.Kind == "empty" {
+			return nil, nil
+		}
 		return nil, errIssuer
 	}
 	sn := serial.Add(1)
@@ -185,6 +192,14 @@ func (is *issuer) request(ctx context.Context, csrDER []byte) ([]*x509.Certifica
 		KeyUsage:     x509.KeyUsageDigitalSignature,
 		URIs:         []*url.URL{{Scheme: "spiffe", Host: "example.org", Path: "/ns/c19/app"}},
 	}
+	if oc.Fail {
+		// an unusable answer: a valid chain for the requested key, but not a SPIFFE identity
+		tmpl.NotBefore, tmpl.NotAfter = now, now.Add(time.Hour)
+		tmpl.URIs = nil
+		if oc.Kind == "bad-id" {
+			tmpl.URIs = []*url.URL{{Scheme: "https", Host: "example.org", Path: "/not-spiffe"}}
+		}
+	}
 	der, err := x509.CreateCertificate(rand.Reader, tmpl, intCert, csr.PublicKey, intKey)
 	if err != nil {
 		return nil, err
@@ -192,6 +207,12 @@ func (is *issuer) request(ctx context.Context, csrDER []byte) ([]*x509.Certifica
 	leaf, err := x509.ParseCertificate(der)
 	if err != nil {
 		return nil, err
+	}
+	if oc.Fail {
+		is.mu.Lock()
+		r.end = time.Now()
+		is.mu.Unlock()
+		return []*x509.Certificate{leaf, intCert}, nil
 	}
 	is.mu.Lock()
 	r.ok, r.nb, r.na, r.serial = true, leaf.NotBefore, leaf.NotAfter, sn
@@ -282,8 +303,8 @@ func TestCheck(t *testing.T) {
 	rec = mon.Open("C19")
 	defer rec.Close()
 	initCA()
-	rec.Note("rule", "a case is one scenario against the real SPIFFE object in a synctest bubble with a scripted issuer signing real SVIDs: (order) each of the six first-call orders of Run / Ready / GetX509SVID from separate goroutines x initial fetch succeeding or failing x consumer additionally parked inside GetX509SVID while it holds the read lock; (renewal) a seeded script of 3-8 issuer outcomes (validity windows from 2 s to 30 days, already past half-life, expired, not yet valid; failures) with the virtual clock advanced in seeded steps of seconds to hours, optionally writing the identity to a directory and rotating the trust anchors. Non-trivial = the issuer received at least one request; distinct = distinct scenario description.")
-	rec.Note("require", []string{"order.get_first", "order.ready_first", "order.run_first", "order.initial_fetch_failed", "order.second_run_refused", "order.consumer_parked_with_rlock", "renewal.requests", "renewal.on_time", "renewal.retry_after_failure", "renewal.served_latest_checked", "renewal.fresh_keys_checked", "files.sets_checked"})
+	rec.Note("rule", "a case is one scenario against the real SPIFFE object in a synctest bubble with a scripted issuer signing real SVIDs: (order) each of the six first-call orders of Run / Ready / GetX509SVID from separate goroutines x initial fetch succeeding or failing x consumer additionally parked inside GetX509SVID while it holds the read lock; (renewal) a seeded script of 3-8 issuer outcomes (validity windows from 2 s to 30 days, already past half-life, expired, not yet valid; failures: an issuer error, an empty answer, or a signed chain without a usable SPIFFE ID) with the virtual clock advanced in seeded steps of seconds to hours, optionally writing the identity to a directory and rotating the trust anchors. Non-trivial = the issuer received at least one request; distinct = distinct scenario description.")
+	rec.Note("require", []string{"order.get_first", "order.ready_first", "order.run_first", "order.initial_fetch_failed", "order.second_run_refused", "order.consumer_parked_with_rlock", "renewal.requests", "renewal.on_time", "renewal.retry_after_failure", "renewal.served_latest_checked", "renewal.fresh_keys_checked", "renewal.unusable_answer_scripted", "files.sets_checked", "files.undisturbed_after_failed_fetch"})
 	ps := plans()
 	rec.Planned(len(ps))
 	for idx, pl := range ps {
@@ -519,7 +540,10 @@ func runRenewal(t *testing.T, idx int, rng *mon.RNG) {
 	var ds []string
 	for i := range script {
 		if i > 0 && rng.Chance(1, 3) {
-			script[i] = outcome{Fail: true}
+			script[i] = outcome{Fail: true, Kind: rng.PickStr("", "", "no-id", "bad-id", "empty")}
+			if script[i].Kind != "" {
+				rec.Count("renewal.unusable_answer_scripted", 1)
+			}
 		} else {
 			wi := rng.Intn(len(windows))
 			if windows[wi].Name == "30d" && !rng.Chance(1, 3) {
@@ -637,6 +661,9 @@ func runRenewal(t *testing.T, idx int, rng *mon.RNG) {
 						}
 					}
 					checkFiles(w, target, want)
+					if !reqs[judged-1].ok && !w.viol {
+						rec.Count("files.undisturbed_after_failed_fetch", 1)
+					}
 				}
 			}
 		}
